@@ -410,3 +410,31 @@ def _stmt_of(node):
     while n is not None and not isinstance(n, ast.stmt):
         n = getattr(n, '_parent', None)
     return n
+
+
+_POOL = 'elfi.store:OutputPool'
+_C05_GUARDS = [
+    (_POOL + '.set_context', 'raise:0', [('self.has_context', True)],
+     'a pool accepts a context only once'),
+    (_POOL + '.get_batch', 'substore:_s[batch_index]',
+     [('_s is None', False), ('batch_index in _s', True)],
+     'a batch supplies a node exactly when the node\'s store holds that batch'),
+    (_POOL + '.add_batch', 'subtarget:batch_index',
+     [('_n in self.stores', True), ('batch_index in _s', False)],
+     'values are stored for the pool\'s own nodes, and never over a batch the store holds'),
+    (_POOL + '.add_store', 'raise:0',
+     [('_n in self.stores', True), ('self.stores[_n] is None', False)],
+     'an existing store is not replaced'),
+    (_POOL + '._get_store_for', 'substore:self._make_store_for(_n)',
+     [('self.stores[_n] is None', True)],
+     'a default store is made only while the node has none'),
+]
+
+
+@obligation('C05-k', 'T11', 'the pool reads, writes and creates stores on the right side of its '
+            'tests (frozen table of {} rows)'.format(len(_C05_GUARDS)), floor=len(_C05_GUARDS),
+            necessary='a batch served from a store that does not hold it, or written over one it '
+                      'holds, makes a reused pool differ from the fresh computation')
+def c05_k(ctx):
+    from .base import check_guard_table
+    check_guard_table(ctx, _C05_GUARDS)
